@@ -31,8 +31,8 @@ def run(ctx):
     ctx.tlc('EmulatedMulCheck', 'EmulatedMulCheck.cfg', workers=1, timeout=900)
     r1 = ctx.tlc('EmulatedOps', 'EmulatedOps_len1.cfg', workers=1, timeout=1800)
     one = r1.beh
-    if len(one) != 1300:
-        raise vlib.Infra('expected 1300 one-instruction programs, TLC produced %d' % len(one))
+    if len(one) != 1330:
+        raise vlib.Infra('expected 1330 one-instruction programs, TLC produced %d' % len(one))
     ctx.exhaustive = not quick
     if quick:
         ctx.rng.shuffle(one)
@@ -47,8 +47,11 @@ def run(ctx):
         one = keep
     r2 = ctx.tlc('EmulatedOps', 'EmulatedOps_len2.cfg', workers=1, simulate=(40 if quick else 600), depth=40, timeout=1800, deadlock=True)
     r3 = ctx.tlc('EmulatedOps', 'EmulatedOps_len3.cfg', workers=1, simulate=(40 if quick else 600), depth=60, timeout=1800, deadlock=True)
+    rt = ctx.tlc('EmulatedOps', 'EmulatedOps_targets.cfg', workers=1, timeout=900)
+    if len(rt.beh) < 12:
+        raise vlib.Infra('targeted programs missing: %d' % len(rt.beh))
     seen, behs = set(), []
-    for b in one + r2.beh + r3.beh:
+    for b in rt.beh + one + r2.beh + r3.beh:
         k = prog_str(b['prog'])
         if k in seen:
             continue
@@ -60,7 +63,7 @@ def run(ctx):
     sets = ['mod13', 'secp256k1'] if quick else ['mod13', 'secp256k1', 'bn254fp', 'goldilocks', 'p384', 'bls12381fr', 'mod65521']
     natives = ['bn254'] if quick else ['bn254', 'bls12-377']
     byid = {b['id']: b for b in behs}
-    hinted = {'Mul', 'Sqr', 'Div', 'Inverse', 'Reduce', 'AddChain', 'IsZeroSel', 'MulNR', 'SqrtSq', 'Exp', 'CanonBits', 'Bits', 'AssertEq', 'AssertDiff', 'LeqStrict', 'ReduceStrict', 'Eval2', 'ModMulB', 'ModAddB', 'ModExpB'}
+    hinted = {'Mul', 'Sqr', 'Div', 'Inverse', 'Reduce', 'AddChain', 'IsZeroSel', 'MulNR', 'SqrtSq', 'Exp', 'CanonBits', 'Bits', 'AssertEq', 'AssertDiff', 'LeqStrict', 'ReduceStrict', 'Eval2', 'ModMulB', 'ModAddB', 'ModExpB', 'LookupOvf', 'ModAddChain'}
     for native in natives:
         ps = sets if native == 'bn254' else ['mod13', 'secp256k1']
         res = ctx.harness(['emureplay', '--curve', native, '--params', ','.join(ps), '--par', '16'], behs, timeout=14000)
